@@ -157,6 +157,15 @@ class Ctx:
             self._aldor = [os.path.join(srcdir, "aldor"), "-Nfile=" + os.path.join(srcdir, "aldor.conf"), "-I" + lib, "-Y" + lib]
             return self._aldor
 
+    def patch_src(self, name, old, new, why):
+        """Encoding work-around applied to the SNAPSHOT copy only (never to /repo); recorded in evidence."""
+        pth = os.path.join(self.src, name)
+        txt = open(pth, errors="replace").read()
+        if old not in txt:
+            raise BuildError("snapshot patch for %s no longer applies (%s)" % (name, why))
+        open(pth, "w").write(txt.replace(old, new))
+        self.notes.append("snapshot patch %s: %s" % (name, why))
+
     def src_hash(self, names):
         out = {}
         for n in names:
@@ -245,6 +254,11 @@ def match_known(known, qname, f):
 def _limits(mem_gb):
     def f():
         os.setsid()
+        try:        # die with the driver: no orphaned solver processes when the check itself is killed
+            import ctypes
+            ctypes.CDLL("libc.so.6").prctl(1, signal.SIGKILL)
+        except Exception:
+            pass
         b = int(mem_gb * (1 << 30))
         resource.setrlimit(resource.RLIMIT_AS, (b, b))
     return f
@@ -796,12 +810,12 @@ def finish(ctx, info, results, known, fixed, extra_cov=None):
         "seed": ctx.seed,
         "level": info.get("level", "model_checking"),
         "coverage": cov,
-        "assumptions": info.get("assumptions", []),
+        "assumptions": info.get("assumptions", []) + ctx.notes,
         "wall_s": round(wall, 2),
         "violations": len(seen),
     }
     os.makedirs(os.path.join(VERIF, "evidence"), exist_ok=True)
-    with open(os.path.join(VERIF, "evidence", pid + ".json"), "w") as fh:
+    with open(os.path.join(VERIF, "evidence", pid + (".partial.json" if getattr(ctx, "partial", False) else ".json")), "w") as fh:
         json.dump(ev, fh, indent=1, default=str)
     log("%s tier=%s: %d queries, %d ok/known, %d obligations (%d discharged), %d violation(s), %d known finding(s), "
         "%d inconclusive, %d broken, wall %.1fs" % (pid, ctx.tier, len(results), n_ok_q, cov["obligations"],
@@ -837,6 +851,7 @@ def main_for(pid, info, make_queries, argv=None):
         queries = [q for q in queries if a.tier in q.tiers]
         if a.only:
             queries = [q for q in queries if fnmatch.fnmatch(q.name, a.only)]
+            ctx.partial = True          # a filtered debugging run does not overwrite the evidence file
         names = [q.name for q in queries]
         assert len(names) == len(set(names)), "duplicate query names"
         if a.list:
